@@ -1015,3 +1015,166 @@ def C18(tier, seed):
     assume = ['engine A with symx::BV<W> (two\'s complement, truncating / and %, signed comparisons); per-query bit-blasting solver',
               'trusted: z3 4.8.12 (QF_BV), the sqrt stub, the dense model mod p in 4W-bit arithmetic']
     return finish('C18', tier, seed, 'model_checking', agg, out, bounds, assume, t0, nvalid)
+
+
+# ----------------------------------------------------------------------------- C13 / C16 (topology only)
+def check_topo(prop, what, tier, seed):
+    ns = [0, 1, 2, 3, 4, 5] if tier == 'quick' else [0, 1, 2, 3, 4, 5, 6]
+    cases = []
+    for n in ns:
+        orders = 1 if n <= 1 else (3 if n <= 5 else 2)
+        cases.append('what=%s n=%d orders=%d seed=%d' % (what, n, orders, seed))
+    if tier == 'thorough':
+        # 7 vertices: sparse and dense ends only (solver-side edge-count assumptions)
+        cases.append('what=%s n=7 orders=1 maxm=6 seed=%d' % (what, seed))
+        cases.append('what=%s n=7 orders=1 minm=17 seed=%d' % (what, seed))
+
+    def tv(leaves, rbin):
+        lines, meta = [], []
+        for rec in leaves:
+            lines.append('what=%s n=%s edges=%s%s' % (what, rec['n'], rec['edges'], (' order=' + rec['order']) if rec.get('order') else ''))
+            meta.append(rec)
+        n = 0
+        for rec, o in zip(meta, run_replayer_batch(rbin, lines)):
+            if o.get('crashed'):
+                return n, 'real build crashed on %s' % rec['edges']
+            if what == 'fvs':
+                if not (o['distinct_in_range'] and o['acyclic']) or ('fvs_size' in rec and int(rec['fvs_size']) != o['size']):
+                    return n, 'greedy_fvs differs on %s: %s' % (rec['edges'], o)
+            else:
+                if not (o['bijection'] and o['forest_ok'] and o['flag_ok'] and o['components'] == o['exp_components'] and o['dim'] == o['exp_dim']):
+                    return n, 'ForestIndex differs on %s: %s' % (rec['edges'], o)
+            n += 1
+        return n, None
+
+    def bad(o, rec, obl):
+        if what == 'fvs':
+            return not (o['distinct_in_range'] and o['acyclic']) or (o['exp_dim'] == 0 and o['size'] != 0 if 'exp_dim' in o else False)
+        return not (o['bijection'] and o['forest_ok'] and o['flag_ok'] and o['components'] == o['exp_components'] and o['dim'] == o['exp_dim'])
+
+    def confirm(agg, rbin, out):
+        items = [(rec, obl) for rec, obl in agg.violated[:30]] + [(rec, {'name': prop + ':crash'}) for rec in agg.crashes[:10]]
+        for idx, (rec, obl) in enumerate(items):
+            if 'edges' not in rec:
+                # the topology of a crashed path is in its birth model (adjacency bits)
+                mdl = rec.get('model', {})
+                es = [k[2:].replace('_', '-') for k, v in mdl.items() if k.startswith('e_') and v == 'true']
+                rec = dict(rec, edges=','.join(es) if es else '-', n=parse_case(rec['case'])['n'], order='')
+            line = 'what=%s n=%s edges=%s%s' % (what, rec['n'], rec['edges'], (' order=' + rec['order']) if rec.get('order') else '')
+            o = run_replayer(rbin, [line])[0]
+            if not (o.get('crashed') or bad(o, rec, obl)):
+                # forest => nothing emitted is checked here for fvs
+                if what == 'fvs' and dim(int(rec['n']), [tuple(map(int, e.split('-'))) for e in rec['edges'].split(',')] if rec['edges'] != '-' else []) == 0 and o['size'] != 0:
+                    pass
+                else:
+                    out.fault = 'counterexample did not reproduce on the real build: %s' % line
+                    return
+            rp = os.path.join(cex_dir(), '%s-replay-%d.json' % (prop, idx))
+            json.dump({'property': prop, 'replayer': 'replay/r_misc.cpp', 'line': line, 'observed': o, 'obligation': obl['name']}, open(rp, 'w'), indent=1)
+            key = '%s/%s' % (what, rec['edges'])
+            kf = finding_matches(prop, key)
+            if kf:
+                out.n_known += 1
+                out.known_lines.append('KNOWN-FINDING: property=%s %s' % (prop, kf['text']))
+            else:
+                out.n_confirmed += 1
+                out.violation_lines.append('VIOLATION property=%s replay=%s' % (prop, rp))
+
+    def extra(agg):
+        distinct = len(set())
+        return {'evaluations': agg.leaves, 'distinct_nontrivial': agg.leaves,
+                'rule': 'one leaf per (labelled simple graph on n vertices, edge insertion order variant); adjacency bits are boolean variables of the '
+                        'path condition decided through the engine, so distinct leaves are distinct inputs; every graph with at least one vertex counts as non-trivial',
+                'exhaustive': True}
+    bounds = {
+        'functions_encoded': ['parmcb::greedy_fvs'] if what == 'fvs' else ['parmcb::ForestIndex', 'parmcb::detail::spanning_forest'],
+        'bounds': 'every labelled simple graph on n <= %d vertices (n=6: 32768 graphs) in natural, reversed(+flipped endpoints) and a seeded insertion '
+                  'order%s' % (5 if tier == 'quick' else 6, '; thorough: n=7 with m<=6 or m>=17' if tier == 'thorough' else ''),
+        'outside_bounds': 'graphs on more vertices',
+        'note': 'degenerate case of the technique: the input is topology only, the solver only enumerates adjacency bits; claimed as exhaustive exploration',
+    }
+    assume = ['real adjacency_list<vecS,vecS,undirectedS>; checks by an independent union-find (symx/oracle.hpp)']
+    return run_symx_check(prop, tier, seed, 'harness/h_topo.cpp', cases, 600 if tier == 'quick' else 3000, tv, confirm, bounds,
+                          witness_pick=lambda cs: [c for c in cs if 'n=3' in c], assumptions=assume, level='exploration', keep_every=3,
+                          extra_cov=extra)
+
+
+def C13(tier, seed):
+    return check_topo('C13', 'fvs', tier, seed)
+
+
+def C16(tier, seed):
+    return check_topo('C16', 'findex', tier, seed)
+
+
+# ----------------------------------------------------------------------------- C20 (engine B)
+def C20(tier, seed):
+    import engb
+    t0 = time.time()
+    gen = engb.lower_unit('ir2c/wrap/w_c20.cpp', ['w_set_concurrency'], 'u_c20')
+    models = ['ir2c/models/common.c', 'ir2c/models/tbb_gc.c']
+    files = [gen] + [os.path.join(VERIF, m) for m in models] + [os.path.join(VERIF, 'ir2c/harness/h_c20.c')]
+    out = Outcome('C20')
+    calls = 3 if tier == 'quick' else 6
+    # 1. the generated C must behave like the real function (real libtbb) on the same call sequences
+    d = engb.diff_build(gen, 'ir2c/wrap/w_c20.cpp', 'ir2c/harness/d_c20.cpp', models, 'u_c20', libs=['-ltbb'])
+    r = subprocess.run([d, str(seed)], stdout=subprocess.PIPE, stderr=subprocess.PIPE, text=True)
+    try:
+        diff = json.loads(r.stdout.strip().splitlines()[-1])
+    except Exception:
+        raise EngineFault('differential driver for C20 crashed: ' + r.stderr[-500:])
+    # 2. witness twin
+    w = engb.cbmc(files, 'harness', calls + 2, defines=['WITNESS', 'CALLS=%d' % calls], timeout=300, trace=False)
+    if w['verdict'] != 'failed':
+        raise EngineFault('witness twin of the C20 harness was not violated')
+    # 3. the property, swept over back ends (first verdict wins is not needed: each must agree)
+    res = engb.cbmc(files, 'harness', calls + 2, defines=['CALLS=%d' % calls], timeout=600)
+    res2 = engb.cbmc(files, 'harness', calls + 2, defines=['CALLS=%d' % calls], backend=('--sat-solver', 'cadical'), timeout=600, trace=False)
+    if res['verdict'] != res2['verdict']:
+        raise EngineFault('back ends disagree on C20: kissat %s cadical %s' % (res['verdict'], res2['verdict']))
+    rbin = build('replay/r_c20.cpp', 'real')
+    violated = res['verdict'] == 'failed'
+    model_mismatch = diff['mismatches'] > 0
+    if violated:
+        # replay on the real libtbb: any n different from the default exposes it
+        ns = [3, 5, 2]
+        o = run_replayer(rbin, [' '.join(map(str, ns))])[0]
+        real_bad = o.get('crashed') or any(st[0] != st[1] for st in o['steps'])
+        if not real_bad:
+            out.fault = 'cbmc counterexample for C20 did not reproduce with the real libtbb (model/encoding wrong): %s' % res['failed']
+        else:
+            rp = os.path.join(cex_dir(), 'C20-replay-0.json')
+            json.dump({'property': 'C20', 'replayer': 'replay/r_c20.cpp', 'line': ' '.join(map(str, ns)), 'observed': o,
+                       'cbmc_failed': res['failed'], 'cbmc_inputs': res['trace_inputs']}, open(rp, 'w'), indent=1)
+            kf = finding_matches('C20', 'set_global_tbb_concurrency')
+            if kf:
+                out.n_known += 1
+                out.known_lines.append('KNOWN-FINDING: property=C20 %s' % kf['text'])
+            else:
+                out.n_confirmed += 1
+                out.violation_lines.append('VIOLATION property=C20 replay=%s' % rp)
+    elif model_mismatch:
+        out.fault = 'generated C + global_control model disagrees with the real function on real libtbb: %s' % diff
+    agg = Agg(['C20:'])
+    agg.leaves = 1
+    agg.forks = res.get('sat_vars', 1) or 1
+    nprops = len(res['props'])
+    agg.obl = {'C20:' + p[1]: [1, 1 if p[2] == 'SUCCESS' else 0] for p in res['props'] if p[0].startswith('harness.')}
+    agg.samples = [{'harness': 'ir2c/harness/h_c20.c', 'calls': calls, 'inputs': 'n_i, default: arbitrary size_t >= 1',
+                    'assertions': [p for p in res['props'] if p[0].startswith('harness.')][:6]}]
+    cov = {
+        'functions_encoded': ['parmcb::set_global_tbb_concurrency (lowered from clang -O1 IR, incl. its function-local static holder)'],
+        'cbmc_units': [os.path.basename(gen)], 'unwind': calls + 2, 'backend': [res['backend'], res2['backend']],
+        'cbmc_properties_checked': nprops, 'cbmc_wall_s': [res['wall_s'], res2['wall_s']],
+        'sat_vars': res.get('sat_vars'), 'sat_clauses': res.get('sat_clauses'),
+        'bounds': 'sequences of %d calls with arbitrary n_i >= 1 and arbitrary default parallelism >= 1 (64-bit)' % calls,
+        'outside_bounds': "the demos' --cores handling in main() (program_options/iostream code, not encodable); longer call sequences; "
+                          'the pre-2021 task_scheduler_init branch',
+        'stubs': ['tbb::detail::r1::create/destroy(global_control&) = multiset of live limits, active_value = min(live) or default',
+                  'operator new/delete = malloc/free (non-null)', '__cxa_guard_* = single-threaded guard byte', '__cxa_atexit = no-op'],
+        'differential_test_vs_real_libtbb': diff,
+    }
+    assume = ['engine B: clang-14 -O1 IR of the extern-C wrapper translated to C by ir2c/ir2c.py, checked by cbmc 6.11 with unwinding assertions',
+              'trusted: the global_control life-cycle model (the documented contract), ir2c.py (validated per run by a differential run against '
+              'the real function linked with libtbb), cbmc + kissat/cadical']
+    return finish('C20', tier, seed, 'model_checking', agg, out, cov, assume, t0, diff['compared'])
